@@ -81,7 +81,7 @@ func newSpecGen(seed int64, nHot int) *specGen {
 	return g
 }
 
-var specKinds = []string{"Struct", "ValidateStruct", "StructForFn", "StructForFns", "NestedStructForRule", "Groups", "Var", "VarForFn", "Map", "MapFn", "Url", "Explain", "Dump", "ColdType", "Helpers", "LongSlice", "TwoRuleSets", "VarSpread"}
+var specKinds = []string{"Struct", "ValidateStruct", "StructForFn", "StructForFns", "NestedStructForRule", "Groups", "Var", "VarForFn", "Map", "MapFn", "Url", "Explain", "Dump", "ColdType", "Helpers", "LongSlice", "TwoRuleSets", "VarSpread", "Refused", "AnonNestedAlone"}
 
 func (g *specGen) next() callSpec {
 	rng := g.rng
@@ -431,6 +431,66 @@ func (g *specGen) next() callSpec {
 		}
 		s.Desc = fmt.Sprintf("Url(%s %q,%v)", form, u, rm)
 		s.Run = func() string { return normErr(drive.Call(func() error { return valid.Url(uin, rm) })) }
+	case "Refused":
+		// inputs every entry point refuses before looking at any field (nil, typed nil pointers,
+		// non-structs): the call answers with an error and leaves nothing behind for the calls around it
+		t := pickType()
+		np := reflect.Zero(reflect.PointerTo(t)).Interface()
+		fns := valid.Name2FnMap{"l_mark": markerFn(fmt.Sprintf("fn_ref_%d", s.ID))}
+		rm := valid.RM{"F0": "required|m_ref"}
+		k := rng.Intn(8)
+		s.Type = t
+		s.Desc = fmt.Sprintf("refused input, variant %d on %s", k, trunc(t.String(), 80))
+		s.Run = func() string {
+			return normErr(drive.Call(func() error {
+				switch k {
+				case 0:
+					return valid.Struct(nil)
+				case 1:
+					return valid.Struct(np)
+				case 2:
+					return valid.StructForFn(np, rm, "a")
+				case 3:
+					return valid.StructForFns(np, rm, fns)
+				case 4:
+					return valid.ValidateStruct(nil, "b")
+				case 5:
+					return valid.NestedStructForRule(np, map[interface{}]valid.RM{np: rm})
+				case 6:
+					return valid.Map(nil, rm)
+				}
+				return valid.Var(nil, "required")
+			}))
+		}
+	case "AnonNestedAlone":
+		// one anonymous struct type validated as a member of an outer object, or on its own: how it
+		// is named in the result depends on where it stands in THIS call
+		t := g.hot[rng.Intn(len(g.hot))]
+		for tries := 0; t.Name() != "" && tries < 20; tries++ {
+			t = g.hot[rng.Intn(len(g.hot))]
+		}
+		v := tunedFill(rng, t, "valid", 0.15)
+		if rng.Intn(2) == 0 {
+			in := ptrTo(v).Interface()
+			s.Type = t
+			s.Inputs = []interface{}{in}
+			s.Desc = "Struct(anonymous type on its own) " + trunc(t.String(), 80)
+			s.Run = func() string { return normErr(drive.Call(func() error { return valid.Struct(in) })) }
+		} else {
+			ot := reflect.StructOf([]reflect.StructField{
+				{Name: "Lead", Type: gen.TString, Tag: `valid:"required|m_lead"`},
+				{Name: "Detail", Type: t, Tag: `valid:"exist"`},
+				{Name: "List", Type: reflect.SliceOf(t), Tag: `valid:"exist"`},
+			})
+			o := reflect.New(ot)
+			o.Elem().Field(1).Set(v)
+			o.Elem().Field(2).Set(reflect.Append(reflect.MakeSlice(reflect.SliceOf(t), 0, 1), tunedFill(rng, t, "valid", 0.15)))
+			in := o.Interface()
+			s.Type = ot
+			s.Inputs = []interface{}{in}
+			s.Desc = "Struct(outer{Detail: anonymous type, List: []anonymous type}) " + trunc(t.String(), 80)
+			s.Run = func() string { return normErr(drive.Call(func() error { return valid.Struct(in) })) }
+		}
 	case "Explain":
 		parts := []string{}
 		for k := 0; k < 1+rng.Intn(5); k++ {
